@@ -81,6 +81,15 @@ def directed_programs():
                     body.append(("op", "PopU", [("load", a)]))
                 body.append(("ret", ("op", "EqU", [("load", u), ("int", 7)])))
                 out.append((f"requested-slot/{sid}/{k}/{m}", Program("app", ("seq", body), [u] + autos, [f])))
+    # slots the optimiser must leave alone although each is stored and read back at once: a requested slot, and a slot shared by main and
+    # a subroutine (several such programs in a row: whatever one compilation notes about ITS slots must not reach the next)
+    for j in range(4):
+        a, g = Var(U, [3, 7, 100, 255][j]), Var(U)
+        f = Sub(0, "reader", [], U, None)
+        f.body = ("op", "Add2", [("load", g), ("int", 1 + j)])
+        main = ("seq", [("store", a, ("int", 10 + j)), ("op", "PopU", [("load", a)]), ("store", g, ("txn", "Fee")), ("op", "PopU", [("load", g)]),
+                        ("op", "PopU", [("call", f, [])]), ("ret", ("op", "EqU", [("load", a), ("int", 10 + j)]))])
+        out.append((f"protected-slots/{j}", Program("app", main, [a, g], [f])))
     return out
 
 
